@@ -176,3 +176,15 @@ for label, r_, p_, t_, bad in (('extra-element-in-products', [H2], [H2O], None, 
                                ('balanced-several-species', [H2, O, N], [H2O, N], None, False)):
     contract(RX + 'Reaction.check_element_balance', P, label=label, args=dict(self=side_rxn(r_, p_, t_)),
              raises={'ValueError': 'True' if bad else 'False'}, cross_check=False)
+
+# ---- the balance check reads the compositions the species were built with (fractional counts included) ----------------------
+for lab, reac, prod, out in (
+        ('Fe+0.75O2=FeO1.5', [('Fe', {'Fe': 1}, 1.), ('O2', {'O': 2}, 0.75)], [('FeO1_5', {'Fe': 1, 'O': 1.5}, 1.)], 'balanced'),
+        ('Fe+0.5O2=FeO1.5', [('Fe', {'Fe': 1}, 1.), ('O2', {'O': 2}, 0.5)], [('FeO1_5', {'Fe': 1, 'O': 1.5}, 1.)], 'refused'),
+        ('H2+0.5O2=H2O', [('H2', {'H': 2}, 1.), ('O2', {'O': 2}, 0.5)], [('H2O', {'H': 2, 'O': 1}, 1.)], 'balanced'),
+        ('H0.5+..=H2.5O', [('Hh', {'H': 0.5}, 5.), ('O2', {'O': 2}, 0.5)], [('H2_5O', {'H': 2.5, 'O': 1}, 1.)], 'balanced')):
+    lemma('balance-check-on-constructed-species[%s]' % lab, P, forall=dict(), given=[],
+          prove=[('outcome', 'spec.rxn.balance_outcome(%r, %r) == %r' % (reac, prod, out))])
+
+from contracts import helpers
+helpers.install(P, 'list_to_dict', 'formula', 'reaction_parser')
